@@ -156,7 +156,7 @@ def h14a(time_signed: int, fudge: int, original_id: int, error: int, other: byte
 
 
 def h14a_pre(time_signed, fudge, original_id, error, other, rmac, use_rmac):
-    return (0 <= time_signed < 2**48 and 0 <= fudge <= 65535 and 0 <= original_id <= 65535 and 0 <= error <= 65535
+    return (0 <= time_signed < 2**48 and 0 <= fudge <= 65535 and 0 <= original_id <= 65535 and 0 <= error <= 4095
             and len(other) <= 2 and len(rmac) <= 3 and (use_rmac or len(rmac) == 0) and (not use_rmac or len(rmac) >= 1))
 
 
@@ -412,7 +412,7 @@ HARNESSES = [
             kind="universal",
             encodes=["dns.tsig._digest", "dns.tsig.sign", "dns.tsig.validate", "dns.tsig.get_context", "dns.tsig.HMACTSig.__init__", "dns.tsig.HMACTSig.sign",
                      "dns.tsig.HMACTSig.verify", "dns.rdtypes.ANY.TSIG.TSIG._to_wire"],
-            bound="time signed (48 bit), fudge, original id, error (16 bit each), other data <= 2 octets, request MAC absent or 1-3 octets: all symbolic; mixed-case key name; 3 (9) algorithms; stream compared octet for octet with the RFC 8945 4.3 reference",
+            bound="time signed (48 bit), fudge, original id (16 bit each), error (0..4095, the range the TSIG record accepts), other data <= 2 octets, request MAC absent or 1-3 octets: all symbolic; mixed-case key name; 3 (9) algorithms; stream compared octet for octet with the RFC 8945 4.3 reference",
             stubs=["E9", "E1"], outside="cryptographic strength of HMAC (idealised); GSS-TSIG"),
     Harness("H14c", h14c, h14c_pre, lambda tier: [{"_timeout": 600}], kind="finite selection (concrete vectors, real HMAC)",
             encodes=["dns.message.Message.use_tsig", "dns.message.Message.to_wire", "dns.tsig.sign", "dns.tsig.validate", "dns.renderer.Renderer.add_rrset",
